@@ -1,3 +1,4 @@
+import TantivyModel.Proofs.PureFns
 import TantivyModel.Proofs.VInt
 import TantivyModel.Proofs.FieldNorm
 import TantivyModel.Proofs.Invert
@@ -849,5 +850,31 @@ example : TermInfoStore.get 2 (TermInfoStore.write 2
   C07_terminfo_roundtrip 2 (by decide) _ C07_terminfo_example_good 1 (by simp)
 example : FieldNorm.fieldnormToId FieldNorm.table 41 = 40 ∧ FieldNorm.idToFieldnorm FieldNorm.table 41 = 42 := by
   decide +kernel
+
+/-! ### functions translated from the Rust source on every run (`Gen/PureFns.lean`)
+
+The skip-entry byte codes of `src/postings/skip.rs` and the block sizes of the stacker arena the
+in-memory recorders live in (`stacker/src/expull.rs`, `shared_arena_hashmap.rs`). The definitions
+are the source text, mechanically translated; the theorems are re-checked against it on every
+run. -/
+section SrcFns
+open TantivyModel.Gen.Fn TantivyModel.PureFns
+
+theorem C07_src_skip_bitwidth_roundtrip : ∀ (b : BitVec 8) (d : Bool),
+    encode_bitwidth_pre b d = true → decode_bitwidth (encode_bitwidth b d) = (b, d) :=
+  bitwidth_roundtrip
+
+theorem C07_src_block_wand_tf_never_underestimates (tf : BitVec 32) :
+    BitVec.ule tf (decode_block_wand_max_tf (encode_block_wand_max_tf tf)) = true :=
+  block_wand_tf_upper tf
+
+theorem C07_src_arena_block_sizes (b : BitVec 32) (n : BitVec 64) (hn : n ≠ 0#64) :
+    (get_block_size b).toNat = 2 ^ (min b.toNat 15)
+    ∧ ∃ k, k < 64 ∧ (compute_previous_power_of_two n).toNat = 2 ^ k
+        ∧ 2 ^ k ≤ n.toNat ∧ n.toNat < 2 ^ (k + 1) :=
+  ⟨get_block_size_spec b, compute_previous_power_of_two_spec n hn⟩
+
+example : encode_bitwidth_pre 17#8 true = true := by decide
+end SrcFns
 
 end TantivyModel.C07
